@@ -192,6 +192,9 @@ func (a *w3Analysis) listWindow(root string, chains []*w3Chain, qs, qe time.Time
 		}
 	}
 	tolr += 3 * time.Millisecond
+	// a returned span as short as the clips that are optional above may be one of them
+	// (media that reaches a few milliseconds into the window: it is on disk, returning it is right)
+	short := tolr + time.Millisecond
 	var got []span
 	switch st {
 	case 200:
@@ -212,7 +215,7 @@ func (a *w3Analysis) listWindow(root string, chains []*w3Chain, qs, qe time.Time
 	// returned spans shorter than the tolerance are ignored
 	gi := 0
 	for _, e := range exp {
-		for gi < len(got) && got[gi].e.Sub(got[gi].s) <= tolr && got[gi].e.Before(e.s.Add(tolr)) {
+		for gi < len(got) && got[gi].e.Sub(got[gi].s) <= short && got[gi].e.Before(e.s.Add(tolr)) {
 			gi++
 		}
 		if gi >= len(got) {
@@ -232,7 +235,7 @@ func (a *w3Analysis) listWindow(root string, chains []*w3Chain, qs, qe time.Time
 		gi++
 	}
 	for ; gi < len(got); gi++ {
-		if got[gi].e.Sub(got[gi].s) > tolr {
+		if got[gi].e.Sub(got[gi].s) > short {
 			a.violate("C29", "list-window", "list?%s returned the span [%s, %s] where the disk holds no media inside the window", q.Encode(), got[gi].s.Format(time.RFC3339Nano), got[gi].e.Format(time.RFC3339Nano))
 			return
 		}
